@@ -39,4 +39,20 @@ def _ip_consts():
     }
 
 
+@unit("juniper")
+def _juniper():
+    from netconan.utils import juniper_secrets as js
+
+    return {
+        "MAGIC": [ord(c) for c in js.MAGIC],
+        "FAMILY": [[ord(c) for c in f] for f in js.FAMILY],
+        "NUM_ALPHA": [ord(c) for c in js.NUM_ALPHA],
+        "ALPHA_NUM": [[ord(k), v] for k, v in js.ALPHA_NUM.items()],
+        "EXTRA": [[ord(k), v] for k, v in js.EXTRA.items()],
+        "ENCODING": js.ENCODING,
+        "FIXEDC": [[ord(c) for c in js._fixedc(i)] for i in range(5)],
+        "VALID": js.VALID,
+    }
+
+
 json.dump(units, sys.stdout)
